@@ -384,7 +384,10 @@ func writeRows(path, header, name, typ string, rows []row) error {
 		}
 		fmt.Fprintf(&sb, "%s%d", name, i)
 	}
-	sb.WriteString("]\n")
+	sb.WriteString("]\n\nend Rie.Gen\n")
+	if old, err := os.ReadFile(path); err == nil && string(old) == sb.String() {
+		return nil
+	}
 	return os.WriteFile(path, []byte(sb.String()), 0o644)
 }
 
@@ -421,9 +424,6 @@ func tablesCmd(args []string) int {
 		fmt.Fprintln(os.Stderr, err)
 		return 2
 	}
-	f, _ := os.OpenFile(filepath.Join(*dir, "RuntimeTable.lean"), os.O_APPEND|os.O_WRONLY, 0o644)
-	fmt.Fprintln(f, "\nend Rie.Gen")
-	f.Close()
 
 	// agents
 	var erows, irows []row
@@ -457,15 +457,15 @@ func tablesCmd(args []string) int {
 	if err := writeRows(filepath.Join(*dir, "ExtAgentTable.lean"), hdr, "extRows", "ExtRow", erows); err != nil {
 		return 2
 	}
-	f, _ = os.OpenFile(filepath.Join(*dir, "ExtAgentTable.lean"), os.O_APPEND|os.O_WRONLY, 0o644)
-	fmt.Fprintln(f, "\nend Rie.Gen")
-	f.Close()
 	if err := writeRows(filepath.Join(*dir, "IntAgentTable.lean"), hdr, "intRows", "IntRow", irows); err != nil {
 		return 2
 	}
-	f, _ = os.OpenFile(filepath.Join(*dir, "IntAgentTable.lean"), os.O_APPEND|os.O_WRONLY, 0o644)
-	fmt.Fprintln(f, "\nend Rie.Gen")
-	f.Close()
+
+	// constants the system model depends on
+	consts := fmt.Sprintf("-- GENERATED by `unitdrv tables` from the built /repo on every check run. Do not edit.\nnamespace Rie.Gen\n\ndef maxPayloadSize : Nat := %d\ndef maxAgentsAllowed : Nat := %d\n\nend Rie.Gen\n", interop.MaxPayloadSize, core.MaxAgentsAllowed)
+	if old, err := os.ReadFile(filepath.Join(*dir, "Consts.lean")); err != nil || string(old) != consts {
+		_ = os.WriteFile(filepath.Join(*dir, "Consts.lean"), []byte(consts), 0o644)
+	}
 
 	if *human != "" {
 		sort.Strings(hs)
